@@ -89,9 +89,15 @@ FKeep(r) == F("KeepFolded", r.out.f = (IF r.in.s.f THEN "True" ELSE "False")) \c
 
 \* ---- C10 ----
 ToSet(q) == {q[j] : j \in 1..Len(q)}
-FMarg(r)    == Cmp(r, Marginalize(r.in.s, ToSet(r.in.over)), "Marg")
-FFilter(r)  == Cmp(r, Filter(r.in.s, ToSet(r.in.keep)), "Filter")
-FReorder(r) == Cmp(r, Reorder(r.in.s, r.in.perm), "Reorder")
+\* reorder_pops has no mask_corners option (marginalize / filter_pops have one, default True): the corner entries of the
+\* reordered spectrum are masked exactly when the explicit re-indexing says so - an input whose corners are kept keeps them
+CmpExact(r, exp, tag) ==
+    Cmp(r, exp, tag) \cup (IF ~Raised(r) /\ r.out.s.sh = exp.sh THEN F(tag \o "MaskExact", MaskExact(r.out.s, exp)) ELSE {})
+\* called with mask_corners=False (recorded as mc = FALSE) marginalize / filter_pops must not mask the corners either
+KeepsCorners(r) == "mc" \in DOMAIN r.in /\ ~r.in.mc
+FMarg(r)    == IF KeepsCorners(r) THEN CmpExact(r, Marginalize(r.in.s, ToSet(r.in.over)), "Marg") ELSE Cmp(r, Marginalize(r.in.s, ToSet(r.in.over)), "Marg")
+FFilter(r)  == IF KeepsCorners(r) THEN CmpExact(r, Filter(r.in.s, ToSet(r.in.keep)), "Filter") ELSE Cmp(r, Filter(r.in.s, ToSet(r.in.keep)), "Filter")
+FReorder(r) == CmpExact(r, Reorder(r.in.s, r.in.perm), "Reorder")
 FCombine2(r) == Cmp(r, CombineTwo(r.in.s, r.in.a, r.in.b), "Combine2")
 \* combine a set of populations into the lowest one: from the highest index down
 RECURSIVE CombineAll(_, _, _)
